@@ -284,6 +284,33 @@ def find_receiver_start(toks, k_dot):
         return k
 
 
+def rewrite_isolated(src, modpath, report, force_stub=()):
+    """apply the token rules function by function: a body that falls outside the rules (or that the verifier
+    could not translate on a previous attempt: force_stub) is replaced by `unimplemented!()`; its contract is then
+    *assumed* (external_body) and every property with a clause on it is reported undecided, the others still run"""
+    toks = lex(src)
+    fns, _ = scan_items(toks, modpath)
+    spans = sorted((toks[f.body_open].start, toks[f.body_close].end, f.qname) for f in fns if f.body_open is not None)
+    out = []
+    pos = 0
+    for a, b, q in spans:
+        if a < pos:
+            continue
+        out.append(rewrite_tokens(src[pos:a], modpath, report))
+        if q in force_stub:
+            report['unextractable'][q] = force_stub[q] if isinstance(force_stub, dict) else 'not translatable by the verifier'
+            out.append('{ unimplemented!() }')
+        else:
+            try:
+                out.append(rewrite_tokens(src[a:b], modpath, report))
+            except GenError as e:
+                report['unextractable'][q] = str(e)
+                out.append('{ unimplemented!() }')
+        pos = b
+    out.append(rewrite_tokens(src[pos:], modpath, report))
+    return ''.join(out)
+
+
 def rewrite_tokens(src, modpath, report):
     counts = report.setdefault('rules', {})
 
@@ -954,7 +981,9 @@ def fn_edits(src, toks, f, c, mode, mapping, variant):
     pre = '/*@F %s*/ ' % variant['marker']
     attrs = ''.join('#[%s]\n' % a for a in c.attrs)
     if variant['external_body']:
-        if variant.get('note') == 'VACUITY-ORIGINAL':
+        if variant.get('note') == 'UNEXTRACTABLE':
+            attrs += '#[verifier::external_body] /*@UNEXTRACTABLE: body outside the extraction rules; contract assumed, properties on it undecided*/\n'
+        elif variant.get('note') == 'VACUITY-ORIGINAL':
             attrs += '#[verifier::external_body] /*@VACUITY-ORIGINAL: not verified in the vacuity file*/\n'
         elif variant.get('note') == 'NOT-IN-STRICT':
             attrs += '#[verifier::external_body] /*@NOT-IN-STRICT: contract proved in lenient mode, assumed here*/\n'
@@ -1039,7 +1068,13 @@ def weave(src, modpath, contracts, mode, report, used, vacuity_props=None):
                            % (f.qname, len(c.params), len(f.params)))
         mapping = {a: b for a, b in zip(c.params, f.params) if a != b}
         groups = [g for g in c.groups if g['mode'] in ('both', mode)]
-        if vacuity_props is not None:
+        if f.qname in report.get('unextractable', {}):
+            e, _, nl, nc = fn_edits(src, toks, f, c, mode, mapping,
+                                    {'suffix': None, 'labels': None, 'extra_requires': [],
+                                     'external_body': True, 'marker': f.qname, 'note': 'UNEXTRACTABLE'})
+            edits.extend(e)
+            finfo['unextractable'] = report['unextractable'][f.qname]
+        elif vacuity_props is not None:
             # vacuity file: nothing is re-verified; for every function carrying a clause of the property a twin
             # claims the opposite of reachability (`r is Err` / `false`) under the same preconditions - it MUST fail
             e, item_start, nl, nc = fn_edits(src, toks, f, c, mode, mapping,
@@ -1315,8 +1350,8 @@ def read_dir_rs(d):
     return '\n'.join(out)
 
 
-def generate(mode, out_path, vacuity_props=None):
-    report = {'mode': mode, 'functions': [], 'types': [], 'rules': {}, 'files': [],
+def generate(mode, out_path, vacuity_props=None, force_stub=()):
+    report = {'mode': mode, 'functions': [], 'types': [], 'rules': {}, 'files': [], 'unextractable': {},
               'cargo_env': cargo_env()}
     src_root = os.path.join(REPO, 'src')
     mods = discover_modules(src_root)
@@ -1334,7 +1369,7 @@ def generate(mode, out_path, vacuity_props=None):
         raw = open(f).read()
         s = strip_tests_and_docs(raw)
         s = strip_attrs_and_uses(s, report)
-        s = rewrite_tokens(s, mp, report)
+        s = rewrite_isolated(s, mp, report, force_stub)
         s = special_impls(s, mp, report)
         s, tnames = weave(s, mp, contracts, mode, report, used, vacuity_props)
         s = s + derive_standins(mp, tnames)
